@@ -887,6 +887,13 @@ class Sim:
             if key not in self._solvers:
                 self._solvers[key] = self._custom_solver(key == "legacy")
             kw["solve_sylvester"] = self._solvers[key]
+        if self.w.get("tmp_args"):
+            # the caller computes the subspace arguments on the fly for every definition (fresh objects, gone after the call)
+            if "subspace_indices" in kw:
+                v = kw["subspace_indices"]
+                kw["subspace_indices"] = np.array(v) if isinstance(v, np.ndarray) else type(v)(list(v))
+            if "subspace_eigenvectors" in kw and not self.w.get("sparse_vecs"):
+                kw["subspace_eigenvectors"] = list(kw["subspace_eigenvectors"])
         H = self.H
         if spec.get("chain") is not None:
             k = spec["chain"]
@@ -960,6 +967,38 @@ class Sim:
         if c not in self.comps:
             return True  # will be built on demand
         return s in SERIES or s in self.comps[c]["derived"]
+
+    def shared_other_partition(self, shift):
+        """block_diagonalize on the caller's own (scalar) Hamiltonian series with the blocks in rotated order."""
+        import warnings
+
+        from pymablock import block_diagonalize
+
+        w, inp = self.w, self.inp
+        if not self.h_is_series or w["fmt"] not in ("scalar_idx", "scalar_vecs") or inp.nb < 2 or w["domain"] not in ("dense", "sparse"):
+            return False
+        if any(sp.get("chain") is not None for sp in w["comps"]) or shares_eigenvalues(w):
+            return False
+        k = 1 + shift % (inp.nb - 1)
+        kw = {"hermitian": w["comps"][0]["herm"]}
+        if "symbols" in self.kw:
+            kw["symbols"] = self.kw["symbols"]
+        with warnings.catch_warnings():
+            warnings.simplefilter("ignore")
+            # the subspace arguments are temporaries of the caller (computed on the fly, gone after the call) ...
+            if w["fmt"] == "scalar_idx":
+                kind = w.get("idx_type", "array")
+                rot = [int((b + k) % inp.nb) for b in inp.idx]
+                out = block_diagonalize(self.H, subspace_indices=(tuple(rot) if kind == "tuple" else rot if kind == "list" else np.array(rot)), **kw)
+                del rot
+            else:
+                out = block_diagonalize(self.H, subspace_eigenvectors=[*inp.vecs[k:], *inp.vecs[:k]], **kw)
+            if shift % 2:
+                out[0][0, 0, *((0,) * (inp.npert - 1)), 1]
+                out[1][0, 1, *((0,) * (inp.npert - 1)), 1]
+        # ... while the computation itself stays alive in the caller's hands
+        self.kept_alive = getattr(self, "kept_alive", []) + [out]
+        return True
 
     def series(self, c, s):
         comp = self.comps[c]
@@ -1228,6 +1267,43 @@ class GraphProp:
                     except Exception as e:  # noqa: BLE001
                         fail("unrelated-computation-raised", f"op#{opi} {op}: {type(e).__name__}: {e}")
                     env.events.append(("aux", opi, op[1]))
+                    continue
+                if kind == "peek":
+                    # the caller looks at a term of its own Hamiltonian series (which the library then finds cached)
+                    if not sim.h_is_series:
+                        continue
+                    _, pi, pj, pn = op
+                    H_ = sim.H
+                    if len(pn) != H_.n_infinite or pi >= len(world["sizes"]) or pj >= len(world["sizes"]):
+                        continue
+                    fired_before = len(env.fired)
+                    try:
+                        H_[(pi, pj, *pn)] if H_.shape else H_[tuple(pn)]
+                        bump("caller_peeks_at_term")
+                    except BaseException as e:  # noqa: BLE001
+                        if isinstance(e, batch.RunTimeout):
+                            raise
+                        if len(env.fired) > fired_before:
+                            env.events.append(("peek-fault", opi))  # an injected fault met the caller's own access
+                        elif not isinstance(e, Poisoned):
+                            fail("peek-raised", f"op#{opi} {op}: the caller's own series raised {type(e).__name__}: {e}")
+                    env.events.append(("peek", opi))
+                    continue
+                if kind == "aux_shared":
+                    # another computation on the *same* Hamiltonian object with the blocks taken in another order (temporary
+                    # subspace arguments); nothing of it is compared
+                    fired_before = len(env.fired)
+                    try:
+                        if env.poison is None and sim.shared_other_partition(op[1]):
+                            bump("other_partition_of_same_input")
+                    except BaseException as e:  # noqa: BLE001
+                        if isinstance(e, batch.RunTimeout):
+                            raise
+                        if len(env.fired) > fired_before:
+                            env.events.append(("aux-fault", opi))
+                        else:
+                            fail("unrelated-computation-raised", f"op#{opi} {op}: {type(e).__name__}: {e}")
+                    env.events.append(("aux_shared", opi))
                     continue
                 if kind == "build":
                     c = op[1]
@@ -1778,6 +1854,8 @@ class GraphProp:
         extra = {}
         if fmt == "nested" and r.random() < profile.get("p_nested_lazy", 0.4):
             extra["nested_lazy"] = True
+        if fmt in ("scalar_idx", "scalar_vecs") and r.random() < 0.5:
+            extra["tmp_args"] = True
         if any(sp.get("solver") == "custom" for sp in comps) and r.random() < 0.5:
             extra["solver_sig"] = r.choice(["varargs", "varargs", "callable", "partial"])
         if ncomp >= 2 and r.random() < profile.get("p_chain", 0.2) and fmt != "scalar_vecs" or (ncomp >= 2 and profile.get("p_chain", 0.2) >= 1):
@@ -1927,6 +2005,15 @@ class GraphProp:
                 ops.append(["sl", c, s, item])
             if r.random() < 0.1 and ops[-1][0] in ("get", "sl", "vget"):
                 ops.append(list(ops[-1]))  # repeated request
+        if r.random() < profile.get("p_rebuild", 0.12) and len(ops) > 4:
+            # the caller defines a computation again, from the same input objects, after having used it
+            ops.insert(r.randint(len(ops) // 2, len(ops)), ["build", r.randrange(ncomp), "again"])
+        if cone is None and r.random() < profile.get("p_peek", 0.15):
+            for _ in range(r.choice([1, 2, 3])):
+                n = r.choice(orders)
+                ops.insert(r.randint(0, len(ops)), ["peek", r.randrange(nb), r.randrange(nb), list(n)])
+        if cone is None and r.random() < profile.get("p_aux_shared", 0.1) and world["fmt"] in ("scalar_idx", "scalar_vecs") and nb >= 2:
+            ops.insert(r.randint(0, len(ops)), ["aux_shared", r.randrange(8)])
         if r.random() < profile.get("p_aux", 0.12) and world["domain"] in ("dense", "sparse", "sym"):
             # the process also runs an unrelated computation with the same number of blocks in between
             ops.insert(r.randint(0, len(ops)), ["aux", r.choice(["implicit", "implicit", "explicit", "explicit_fd"]), r.randrange(1 << 30)])
